@@ -41,10 +41,40 @@ def run(cmd, **kw):
 
 
 # ---------------------------------------------------------------- extraction
+TRANSLATE_STATUS = (True, 'not run')
+
+
+def translate():
+    """the second tie (tools/c2lean.py): regenerate Generated/Translated.lean from the working tree's lltdAutomata.c.
+    Returns (ok, message); when the source has left the translatable subset the old file stays and the message says why."""
+    global TRANSLATE_STATUS
+    sys.path.insert(0, os.path.join(VERIF, 'tools'))
+    import c2lean
+    target = os.path.join(LEAN, 'LLTD', 'Generated', 'Translated.lean')
+    try:
+        txt = c2lean.translate(REPO, VERIF)
+    except c2lean.Unsupported as e:
+        TRANSLATE_STATUS = (False, 'c2lean: lltdAutomata.c has left the translatable subset: %s' % e)
+        return TRANSLATE_STATUS
+    except Exception as e:      # a translator crash is a broken tie, not a pass
+        TRANSLATE_STATUS = (False, 'c2lean crashed: %r' % (e,))
+        return TRANSLATE_STATUS
+    old = open(target).read() if os.path.exists(target) else None
+    if old != txt:
+        with open(target + '.tmp', 'w') as f:
+            f.write(txt)
+        os.replace(target + '.tmp', target)
+        TRANSLATE_STATUS = (True, 'Translated.lean rewritten')
+    else:
+        TRANSLATE_STATUS = (True, 'Translated.lean unchanged')
+    return TRANSLATE_STATUS
+
+
 def extract():
-    """Compile and RUN the probe against the working tree; rewrite Extracted.lean if it changed.
+    """Compile and RUN the probe against the working tree; rewrite Extracted.lean if it changed; then run the translator.
     Returns (ok, message)."""
     with Lock('extract'):
+        translate()
         out = os.path.join(BUILD, 'x')
         os.makedirs(out, exist_ok=True)
         core = os.path.join(REPO, 'lltdResponder')
@@ -117,10 +147,12 @@ def lake_build_driver(tag):
 
 
 def prop_modules(prop):
-    """Props/<prop>.lean and, when present, Props/<prop>H.lean (the history form proved over the refinement)"""
+    """Props/<prop>.lean and, when present, Props/<prop>H.lean (the history form proved over the refinement) and
+    Props/<prop>T.lean (the property for the TRANSLATED source, over Generated/Translated.lean)"""
     mods = [prop]
-    if os.path.exists(os.path.join(LEAN, 'LLTD', 'Props', prop + 'H.lean')):
-        mods.append(prop + 'H')
+    for suffix in ('H', 'T'):
+        if os.path.exists(os.path.join(LEAN, 'LLTD', 'Props', prop + suffix + '.lean')):
+            mods.append(prop + suffix)
     return mods
 
 
